@@ -44,6 +44,16 @@ ASSUME TLCSet(6, Norm([k \in 1..Len(P2A) |-> LET r == Ev(Parse(P2A[k]), 1, Base)
 ASSUME TLCSet(7, Norm([k \in 1..Len(P2B) |-> LET r == Ev(Parse(P2B[k]), 1, Base) IN
                                                IF r.k = "val" THEN r.v ELSE Assert(FALSE, <<"P2B", k, r.k>>)]))
 
+\* index sweeps: every builtin taking positions, on sequences of length 0..4, with every index from -1 to length + 3
+\* (the values are built from Go with spare capacity: an index within the capacity but beyond the length is out of range)
+IdxSeqs == <<"[]", "[1]", "[1 2 3]", "(1 2 3)", "()", "[1 2 3 4]">>
+IdxCalls == <<"(subvec _S _I _J)", "(subvec _S _I)", "(nth _S _I)", "(take _I _S)", "(drop _I _S)", "(take-last _I _S)",
+              "(drop-last _I _S)", "(assoc _S _I 9)", "(get _S _I)", "(update _S _I inc)", "(contains? _S _I)",
+              "(nth _S _I _J)", "(get _S _I _J)">>
+IdxRange == 9   \* indices -1 .. 7
+ASSUME TLCSet(8, Norm([k \in 1..Len(IdxCalls) |-> Parse(IdxCalls[k])]))
+ASSUME TLCSet(9, Norm([k \in 1..Len(IdxSeqs) |-> Parse(IdxSeqs[k])]))
+
 VARIABLES b, ar, idx, ph
 
 Init == /\ ph = 0
@@ -51,6 +61,7 @@ Init == /\ ph = 0
         /\ \/ ar \in 0..MaxAr /\ idx \in 0..(Pow(NP, ar) - 1)
            \/ Pool3 > 0 /\ MaxAr < 3 /\ ar = 3 /\ idx \in 0..(Pow(Pool3, 3) - 1)
            \/ Pure2 > 0 /\ ar = -2 /\ idx \in 0..(Len(P2A) * Pure2 * Pure2 * 2 - 1)
+           \/ b <= Len(IdxCalls) /\ ar = -3 /\ idx \in 0..(Len(IdxSeqs) * IdxRange * IdxRange - 1)
 
 Resolve(a) == IF a.t = "fnref" THEN Lookup(Base.envs, 1, a.s).v ELSE a
 
@@ -79,8 +90,26 @@ PureCase ==
       allow |-> [k |-> IF ok THEN "val" ELSE "unspec", v |-> IF ok THEN ListV(<<o1.v, o2.v, av>>) ELSE NilV,
                  eff |-> <<>>, g |-> <<>>]]
 
+RECURSIVE SubstIdx(_, _, _, _)
+SubstIdx(t, sv, i, j) ==
+  IF t.t = "sym" /\ t.s = "_S" THEN ListV(<<SymV("quote"), sv>>)
+  ELSE IF t.t = "sym" /\ t.s = "_I" THEN IntV(i)
+  ELSE IF t.t = "sym" /\ t.s = "_J" THEN IntV(j)
+  ELSE IF t.t = "list" THEN [t EXCEPT !.xs = [k \in 1..Len(t.xs) |-> SubstIdx(t.xs[k], sv, i, j)]]
+  ELSE t
+IdxCase ==
+  LET ns == Len(IdxSeqs)
+      is == (idx % ns) + 1
+      i == ((idx \div ns) % IdxRange) - 1
+      j == ((idx \div (ns * IdxRange)) % IdxRange) - 1
+      form == SubstIdx(TLCGet(8)[b], TLCGet(9)[is], i, j)
+      r == Ev(form, 1, Base)
+  IN [kind |-> "prog", tag |-> "idx:" \o form.xs[1].s, name |-> form.xs[1].s, forms |-> <<form>>, src |-> PrStr(form),
+      allow |-> [k |-> r.k, v |-> Abstract(r.v, r.st), eff |-> <<>>, g |-> <<>>]]
+
 Next == /\ ph = 0 /\ ph' = 1 /\ UNCHANGED <<b, ar, idx>>
-        /\ IF ar = -2 THEN PrintT("CASE " \o ToJson(PureCase)) ELSE
+        /\ IF ar = -3 THEN PrintT("CASE " \o ToJson(IdxCase)) ELSE
+           IF ar = -2 THEN PrintT("CASE " \o ToJson(PureCase)) ELSE
             LET pool == TLCGet(3)
                base == IF ar = 3 /\ MaxAr < 3 THEN Pool3 ELSE NP
                args == [k \in 1..ar |-> pool[((idx \div Pow(base, k - 1)) % base) + 1]]
